@@ -882,6 +882,8 @@ def _fresh_stem(g, taken):
         elif c < 0.60:
             # punctuation a real file name can carry, including shell-wildcard characters
             s = g.choice(["%s[1]", "[draft] %s", "%s[0-9]x", "%s(2)", "%s+tag", "%s,v", "%s#3", "%s~", "{%s}", "%s!", "%s'"]) % s
+        if "." in s and s.rpartition(".")[2].lower() in ("gb", "gbk", "genbank"):
+            continue  # an inner dot followed by an extension would make a junk file look like a plasmid file
         if s.lower() not in taken:
             taken.add(s.lower())
             return s
